@@ -1685,6 +1685,7 @@ def install(it):
     reg("numpy.arange", np_arange)
     reg("numpy.broadcast_to", np_broadcast_to)
     reg("numpy.ldexp", np_ldexp)
+    reg("numpy.exp2", lambda it, x, **kw: np_exp2(it, x))
     reg("numpy.frexp", np_frexp)
     reg("numpy.where", np_where)
     reg("numpy.atleast_2d", np_atleast_2d)
@@ -1931,6 +1932,28 @@ def np_ldexp(it, x, e):
     if _is_arrayish(x) or _is_arrayish(e):
         return wrap(ops.elementwise(f, "real", x, e))
     return tag_np(it, f(x, e)) if is_sym(f(x, e)) else f(x, e)
+
+
+def np_exp2(it, x):
+    """numpy.exp2: 2**x.  For an INTEGER ARRAY numpy picks the float type by the integer width (int8 -> float16,
+    int16 -> float32, int32/int64 -> float64): the result is the exact power of two only for 32/64-bit integers.
+    The width of caller-supplied integer arrays (scaling weights) is not known, so this is an obligation."""
+    if _is_arrayish(x) and _vec_of(x).kind == "int":
+        it.path.prove(False, "numpy.exp2/integer_width", kind="domain",
+                      desc="np.exp2 of an integer array whose width is not fixed by an explicit cast (scaling weights may be int8 / int16): for int8 / int16 input the result is float16 / float32 (overflows to inf beyond 2^15, underflows to 0 below 2^-24) - not the exact power of two that np.ldexp(1.0, k) gives")
+
+    def f(a):
+        return pow2_at(it, a if not isinstance(a, int) else z3.IntVal(a)) if (isinstance(a, int) or (is_sym(a) and z3.is_int(a))) else None
+
+    if _is_arrayish(x):
+        vec = _vec_of(x)
+        if vec.kind != "int":
+            raise Unsupported("numpy.exp2 of a non-integer array")
+        return wrap(ops.elementwise(lambda a: f(a), "real", x))
+    r = f(x)
+    if r is None:
+        raise Unsupported("numpy.exp2 of a non-integer scalar")
+    return r
 
 
 def np_frexp(it, v):
